@@ -67,12 +67,15 @@ def Env.get (env : Env) (n : String) : Option Int :=
   | [] => none
   | (k, v) :: rest => if k == n then some v else Env.get rest n
 
+/-- `checked_add` / `checked_sub` / `checked_mul` on `i64`: a result outside the range is the Overflow error -/
+def narrow (v : Int) : Except IErr Int := if inI64 v then .ok v else .error .overflow
+
 def CE.eval (env : Env) : CE → Except IErr Int
   | .lit i => .ok i
   | .var n => match env.get n with | some v => .ok v | none => .error .undeclared
-  | .add a b => do pure ((← a.eval env) + (← b.eval env))
-  | .sub a b => do pure ((← a.eval env) - (← b.eval env))
-  | .mul a b => do pure ((← a.eval env) * (← b.eval env))
+  | .add a b => do narrow ((← a.eval env) + (← b.eval env))
+  | .sub a b => do narrow ((← a.eval env) - (← b.eval env))
+  | .mul a b => do narrow ((← a.eval env) * (← b.eval env))
 
 /-- `compute_indexes`: an unbound identifier index is a literal name fragment -/
 def idxFrag (env : Env) : CE → Except IErr String
@@ -91,7 +94,8 @@ def Src.rows (env : Env) : Src → Except IErr (List (List Int))
   | .range lo hi inc => do
     let l ← lo.eval env
     let h ← hi.eval env
-    pure ((rangeVals l h inc).map (fun i => [i]))
+    if rangeTooLarge l h inc then .error .overflow     -- TooLarge
+    else pure ((rangeVals l h inc).map (fun i => [i]))
   | .arr xs => .ok (xs.map (fun x => [x]))
   | .enumArr xs => .ok ((enumerate xs).map (fun p => [p.1, (p.2 : Int)]))
   | .zip2 xs ys => .ok (zip [xs, ys])
